@@ -308,6 +308,13 @@ def impl1(case):
             return None
         except Exception as e:  # noqa
             return exc_code(e)
+    if op == 33:
+        _, wire, otype, current, olen = case
+        try:
+            dns.edns.option_from_wire(otype, bytes(wire), current, olen)
+            return None
+        except Exception as e:  # noqa
+            return exc_code(e)
     if op == 40:
         return impl_msg(case)
     if op == 50:
@@ -455,6 +462,30 @@ def gen_wire_name(rng, base_len):
     return w + (b"\0" if rng.random() < 0.7 else b"\xc0\x0c")
 
 
+def gen_option_value(rng, ot, base_len):
+    """option data for option type ot (well formed and boundary forms)"""
+    if ot == 8:
+        fam = rng.choice([1, 1, 2, 2, 0, 3])
+        src = rng.choice([0, 1, 8, 24, 25, 32, 33, 40, 56, 128, 129, 255])
+        nb = (src + 7) // 8
+        v = struct.pack("!HBB", fam, src, rng.choice([0, 0, src, 32, 33, 128, 129])) + \
+            bytes(rng.randrange(256) for _ in range(rng.choice([nb, nb, nb, nb + 1, max(0, nb - 1)])))
+    elif ot == 10:
+        v = bytes(rng.randrange(256) for _ in range(rng.choice([8, 8, 16, 24, 40, 41, 15, 7, 0, 12])))
+    elif ot == 15:
+        txt = rng.choice([b"", b"stale", b"x\x00", b"\x00\x00", "caf\u00e9".encode(), b"\xc3", b"\xe2\x82\xac", b"\xed\xa0\x80", b"\xf0\x9f\x98\x80",
+                          b"\xc0\xaf", b"\xf4\x90\x80\x80", b"\xe0\x80\x80", b"ok\xff", b"\xf0\x90\x80", b"a\x00b\x00"])
+        v = struct.pack("!H", rng.choice([0, 3, 24, 65535])) + txt if rng.random() < 0.9 else bytes(rng.choice([0, 1]))
+    elif ot == 18:
+        v = gen_wire_name(rng, base_len) if rng.random() < 0.8 else b"\x03abc"
+    elif ot in (22, 23, 24, 25):
+        v = rng.choice([b"", b"en", b"mailto:abuse@example.com", "caf\u00e9".encode(), b"\xc3", b"\xed\xa0\x80", b"ok\xff", b"x\x00",
+                        b"\xf0\x9f\x98\x80", b"\xf4\x90\x80\x80"])
+    else:
+        v = bytes(rng.randrange(256) for _ in range(rng.choice([0, 1, 4, 9])))
+    return v
+
+
 def gen_modelled_rdata(rng, rdtype, base_len):
     if rdtype == 1:
         return bytes(rng.randrange(256) for _ in range(4))
@@ -476,25 +507,7 @@ def gen_modelled_rdata(rng, rdtype, base_len):
         out = b""
         for _ in range(rng.choice([0, 1, 2, 3])):
             ot = rng.choice([65001, 4, 100, 3, 8, 8, 8, 10, 10, 15, 15, 18, 22, 23, 24, 25])
-            if ot == 8:
-                fam = rng.choice([1, 1, 2, 2, 0, 3])
-                src = rng.choice([0, 1, 8, 24, 25, 32, 33, 40, 56, 128, 129, 255])
-                nb = (src + 7) // 8
-                v = struct.pack("!HBB", fam, src, rng.choice([0, 0, src, 32, 33, 128, 129])) + \
-                    bytes(rng.randrange(256) for _ in range(rng.choice([nb, nb, nb, nb + 1, max(0, nb - 1)])))
-            elif ot == 10:
-                v = bytes(rng.randrange(256) for _ in range(rng.choice([8, 8, 16, 24, 40, 41, 15, 7, 0, 12])))
-            elif ot == 15:
-                txt = rng.choice([b"", b"stale", b"x\x00", b"\x00\x00", "caf\u00e9".encode(), b"\xc3", b"\xe2\x82\xac", b"\xed\xa0\x80", b"\xf0\x9f\x98\x80",
-                                  b"\xc0\xaf", b"\xf4\x90\x80\x80", b"\xe0\x80\x80", b"ok\xff", b"\xf0\x90\x80", b"a\x00b\x00"])
-                v = struct.pack("!H", rng.choice([0, 3, 24, 65535])) + txt if rng.random() < 0.9 else bytes(rng.choice([0, 1]))
-            elif ot == 18:
-                v = gen_wire_name(rng, base_len) if rng.random() < 0.8 else b"\x03abc"
-            elif ot in (22, 23, 24, 25):
-                v = rng.choice([b"", b"en", b"mailto:abuse@example.com", "caf\u00e9".encode(), b"\xc3", b"\xed\xa0\x80", b"ok\xff", b"x\x00",
-                                b"\xf0\x9f\x98\x80", b"\xf4\x90\x80\x80"])
-            else:
-                v = bytes(rng.randrange(256) for _ in range(rng.choice([0, 1, 4, 9])))
+            v = gen_option_value(rng, ot, base_len)
             out += struct.pack("!HH", ot, len(v) if rng.random() < 0.93 else rng.choice([0, len(v) + 1, max(0, len(v) - 1)])) + v
         return out
     if rdtype == 250:
@@ -776,6 +789,25 @@ def cases(ctx):
         rdlen = len(rd) if rng.random() < 0.8 else rng.choice([0, len(rd) + 1, max(0, len(rd) - 1), 70000])
         suf = bytes(rng.randrange(256) for _ in range(rng.choice([0, 0, 3])))
         yield "rdata_wire", [32, pre + rd + suf, c, t, len(pre), rdlen]
+    # -- dns.edns.option_from_wire, the direct option API (every option class)
+    for _ in range(ctx.n(300, 4000)):
+        ot = rng.choice([65001, 4, 100, 3, 8, 8, 8, 8, 10, 10, 15, 15, 18, 22, 23, 24, 25])
+        pre = nm([b"www", b"example"]) if rng.random() < 0.5 else b""
+        v = gen_option_value(rng, ot, 0)
+        if rng.random() < 0.3:
+            v = P.mutate_bytes(rng, v)
+        olen = len(v) if rng.random() < 0.8 else rng.choice([0, len(v) + 1, max(0, len(v) - 1), 70000])
+        suf = bytes(rng.randrange(256) for _ in range(rng.choice([0, 0, 3])))
+        cur = len(pre) if rng.random() < 0.9 else rng.choice([0, len(pre) + len(v) + len(suf), len(pre) + len(v) + len(suf) + 1])
+        yield "edns_wire", [33, pre + v + suf, ot, cur, olen]
+    # ECS prefix-length boundaries, both families: 32/33 and 128/129 source and scope bits
+    for fam in (0, 1, 2, 3):
+        for src in (0, 1, 7, 8, 9, 24, 31, 32, 33, 40, 64, 127, 128, 129, 255):
+            for scope in (0, 32, 33, 128, 129, 255):
+                nb = (src + 7) // 8
+                for extra in (0, 1, -1):
+                    v = struct.pack("!HBB", fam, src, scope) + bytes(max(0, nb + extra))
+                    yield "edns_wire", [33, v, 8, 0, len(v)]
     # -- dns.message.from_wire
     for _ in range(ctx.n(900, 12000)):
         w, spans = gen_model_message(rng)
@@ -853,6 +885,11 @@ def oracle(ctx, kind, case, out):
     elif op in (31, 32, 50, 60):
         if foreign(out):
             fail("non-library exception: " + out.text)
+    elif op == 33:
+        # the direct option API documents (and tests/test_edns.py pins) exactly ValueError for a
+        # malformed ECS / COOKIE option; anything else foreign is a violation
+        if foreign(out) and out.code != 104:
+            fail("dns.edns.option_from_wire raised a non-library exception: " + out.text)
     elif op == 63:
         if foreign(out):
             fail("dns.message.from_text raised a non-library exception: " + out.text)
